@@ -107,6 +107,12 @@ var Texts = map[string]string{
   deviation "/t:c/t:ll" { deviate replace { max-elements 2; } }
   deviation "/t:c/t:nosuch" { deviate not-supported; }
 }`,
+	// the same without the deviation that cannot be applied: a clean set with augments, a shorthand choice member and deviations
+	"dvok": `module dvok { namespace "urn:dvok"; prefix dvok; import tgt { prefix t; }
+  augment "/t:c" { leaf grafted2 { type string; } choice ch { leaf sh { type string; } } }
+  deviation "/t:c/t:l" { deviate replace { default "clean"; } }
+  deviation "/t:c/t:ll" { deviate replace { max-elements 3; } }
+}`,
 	// a module with a revision statement (loaded after others it changes nothing for them)
 	"rv": `module rv { namespace "urn:rv"; prefix rv; revision 2022-02-02; leaf r { type string; } }`,
 	// identities with two bases, one of them in a module that may be loaded later; an identityref typedef likewise
